@@ -1144,6 +1144,28 @@ def spec_check(case, res):
 
 # =========================================================================== real subprocesses
 
+def alive_with(marker):
+    """pids of live (non-zombie) processes whose command line contains `marker`; reads /proc directly
+    (psutil.process_iter can raise while a process vanishes under it)"""
+    out = []
+    for d in os.listdir("/proc"):
+        if not d.isdigit():
+            continue
+        try:
+            with open(f"/proc/{d}/cmdline", "rb") as f:
+                cmd = f.read().replace(b"\0", b" ").decode("utf-8", "replace")
+            if marker not in cmd:
+                continue
+            with open(f"/proc/{d}/stat", "rb") as f:
+                st = f.read().decode("utf-8", "replace")
+            state = st[st.rindex(")") + 2: st.rindex(")") + 3]
+            if state != "Z":
+                out.append(int(d))
+        except (OSError, ValueError):
+            continue
+    return out
+
+
 def real_low_level(spec):
     """Run the real solve_low_level with a real child process.  spec = dict(script, timeout)."""
     import psutil
@@ -1170,11 +1192,7 @@ def real_low_level(spec):
     # every child has been sent SIGKILL by now; give the kernel a moment to tear them down
     t1 = time.time()
     while True:
-        survivors = []
-        for p in psutil.process_iter(["cmdline", "status"]):
-            with contextlib.suppress(Exception):
-                if marker in " ".join(p.info["cmdline"] or []) and p.info["status"] != psutil.STATUS_ZOMBIE:
-                    survivors.append(p.pid)
+        survivors = alive_with(marker)
         if not survivors or time.time() - t1 > 3.0:
             break
         time.sleep(0.1)
@@ -1255,11 +1273,7 @@ def real_random_run(seed):
         raised = type(e).__name__
     t_ret = time.time() - t0
     time.sleep(0.1)
-    alive_after = []
-    for p in psutil.process_iter(["cmdline", "status"]):
-        with contextlib.suppress(Exception):
-            if marker in " ".join(p.info["cmdline"] or []) and p.info["status"] != psutil.STATUS_ZOMBIE:
-                alive_after.append(p.pid)
+    alive_after = alive_with(marker)
     for t in ths:
         t.join(25)
     stuck = [j for j, t in enumerate(ths) if t.is_alive()]
